@@ -46,6 +46,17 @@ INVALID = [
     ('A', 'policy = "lifo"', 'policy outside the table (async)'),
     ('S', 'scope = "process"', 'scope outside the table'),
     ('S', 'scope = thread', 'scope not a string'),
+    ('S', 'scope = "Thread"', 'scope is case sensitive'),
+    ('S', 'scope = "GLOBAL"', 'scope is case sensitive'),
+    ('S', 'scope = "thread "', 'scope with trailing blank'),
+    ('S', 'scope = ""', 'empty scope'),
+    ('A', 'policy = "Fifo"', 'policy is case sensitive (async)'),
+    ('S', 'policy = ""', 'empty policy'),
+    ('S', 'policy = " lru"', 'policy with leading blank'),
+    ('S', 'max_memory = ""', 'empty max_memory'),
+    ('S', 'max_memory = "-1KB"', 'negative max_memory'),
+    ('S', 'ttl = -1', 'ttl negative'),
+    ('A', 'limit = -1', 'limit negative (async)'),
     ('A', 'scope = "global"', 'scope is not an async attribute'),
     ('S', 'limit = "10"', 'limit not an integer'),
     ('S', 'limit = 1.5', 'limit not an integer'),
